@@ -57,6 +57,8 @@ def run(tier):
     runs.append(('seq depth %d, full alphabet' % sdepth, rs))
     rc = vlib.run_workers(binary, 'TestVerifC09Crash', nsh, env={'VERIF_C09_DEPTH': str(cdepth), 'VERIF_C09_EVERYBYTE': '2', 'VERIF_DEADLINE': deadline})
     runs.append(('crash depth %d, full alphabet' % cdepth, rc))
+    rl = vlib.run_workers(binary, 'TestVerifC09Lengths', vlib.NCPU, env={'VERIF_DEADLINE': deadline})
+    runs.append(('one DeleteRange over n entries, n = 1..40 and around round numbers up to 4096, head/middle/tail, both encodings', rl))
     if tier == 'thorough':
         r5 = vlib.run_workers(binary, 'TestVerifC09Seq', nsh, env={'VERIF_C09_DEPTH': str(sdepth + 1), 'VERIF_C09_ALPHA': 'core', 'VERIF_DEADLINE': deadline})
         runs.append(('seq depth %d, core alphabet (12 operations)' % (sdepth + 1), r5))
